@@ -6,6 +6,7 @@ mod util;
 mod workers;
 
 mod bringup;
+mod tsan;
 mod c01;
 mod c02;
 mod c03;
